@@ -34,7 +34,7 @@ LEVEL = ("sibling / guard rules: (1) every get_type_string implementation evalua
          "one function that ORs their `required`, or returns under equality of the two; (9) decode direction: the Python code each kind's construct macro generates "
          "for a non-required property (per valuation of the template conditions, macro calls followed, placeholders for destination / "
          "source / unknown) is parsed and run abstractly on the path where the source is UNSET: the destination ends as the source / "
-         "UNSET, never as a fresh value; (11) the `required` lists of the document reach the builders whole (no in-place rewrite, no "
+         "UNSET, never as a fresh value, and (13) on the path where the source is anything but the sentinel (truth value unknown) it never ends as UNSET; (11) the `required` lists of the document reach the builders whole (no in-place rewrite, no "
          "filter over a collection made of them); (12) two declarations' `required` are combined only by the merge module and the "
          "function that walks allOf.")
 
@@ -68,6 +68,9 @@ def run(rep: Report, ctx: Any) -> str:
                       "a property that is not required, on the path where the popped source is the UNSET sentinel the local handed to "
                       "`cls(...)` ends up as the source / UNSET itself - never as a fresh value (a literal, a constant, the result of a "
                       "call); decided on the generated text per valuation of the template conditions, macro calls followed")
+    rep.rule("R10.13", "decoding keeps 'present' present: in the same generated code, on the path where the popped source is NOT the UNSET "
+                       "sentinel (whatever else it is: null, empty, zero - its truth value is not known) the local handed to `cls(...)` never "
+                       "ends up as UNSET; only a test for the sentinel itself (isinstance(..., Unset) / `is UNSET`) may select UNSET")
     rep.rule("R10.4", "the union parser returns None before trying any member exactly when None is among its JSON types; "
                       "handle_nullable covers type scalar / type list / oneOf / anyOf / allOf")
     rep.rule("R10.5", "query parameters are dropped only by identity with UNSET or None; a cookie or header is written outside the block "
@@ -373,6 +376,8 @@ def run(rep: Report, ctx: Any) -> str:
                 continue
             if path_returns_error(p, errs) or any(r is x for x in bad_returns):
                 continue
+            if fw.holds_no_declaration(f, PathSim(f.node).resolve(r.value, p.end_state)):
+                continue
             bad_returns.append(r)
         rep.check(not bad_returns, "R10.8", f"{short(f)}::requiredness-forwarded",
                   f"a path returns `{norm(bad_returns[0].value)[:60] if bad_returns else ''}` without having passed on the requiredness of the "
@@ -424,10 +429,11 @@ def run(rep: Report, ctx: Any) -> str:
         free = [a for a in names_ if a not in fixed]
         rep.require(len(free) <= 12, f"a decoder that depends on at most 12 conditions ({key})")
         fresh: list[str] = []
+        lost: list[dict[str, bool]] = []
         assigned = parsed = 0
         for env0 in tplq.assignments(free):
             env = {**env0, **fixed}
-            text = "".join(_gen_text(fr, i_, env, tev_, role) for i_, fr in frs_ if fr.kind != "set" and _guard_holds(fr, env))
+            text = _compose([(fr, _gen_text(fr, i_, env, tev_, role)) for i_, fr in frs_ if fr.kind != "set" and _guard_holds(fr, env)])
             try:
                 import textwrap
 
@@ -440,6 +446,8 @@ def run(rep: Report, ctx: Any) -> str:
             for v in sorted(vals):
                 if v.startswith("FRESH:") and v[6:] not in fresh:
                     fresh.append(v[6:])
+            if vals and "SENT" in _GenRun(unset_falsy, present=True).result(tree_, DEST):
+                lost.append({a: v for a, v in env.items() if v})
         rep.require(parsed, f"generated code of {key} that parses as Python for some valuation")
         if not assigned:
             return   # nothing is assigned here: the decoder is elsewhere
@@ -447,6 +455,12 @@ def run(rep: Report, ctx: Any) -> str:
         rep.check(not fresh, "R10.9", key, f"for a property that is not required, an absent key (source UNSET) is decoded to a fresh value "
                   f"({', '.join(fresh[:3])}) instead of UNSET: 'absent' reads back as 'present'", where=at_, lhs=fresh[:3],
                   rhs="the source / UNSET itself on the UNSET path")
+        rep.check(not lost, "R10.13", key.replace("unset-passes-through", "present-stays-present"),
+                  "for a property that is not required, a key that is there can be decoded to UNSET: on the path where the source is "
+                  "not the sentinel the destination may still end as UNSET (a test of the source other than for the sentinel - its "
+                  "truth value, say - decides): 'present' (empty, zero, null) reads back as 'absent' and is not sent again"
+                  f"{' (when ' + ' and '.join(sorted(lost[0]))[:80] + ')' if lost and lost[0] else ''}", where=at_, lhs=lost[:1],
+                  rhs="UNSET only under isinstance(<source>, Unset) / `is UNSET`")
 
     for tn, ti in sorted(jx.templates.items()):
         m = ti.macros.get("construct") if tn.startswith(TEMPLATE_DIR) else None
@@ -488,15 +502,13 @@ def run(rep: Report, ctx: Any) -> str:
     n_with = 0
     bad_env: "dict[str, bool] | None" = None
     for env in tplq.assignments(unames) if ok else ():
-        before = after = ""
+        head: list[tuple[tplq.Frag, str]] = []
+        tail: list[tuple[tplq.Frag, str]] = []
         for i_, fr in ufr:
             if fr.kind == "set" or not _guard_holds(fr, env):
                 continue
-            txt = _gen_text(fr, i_, env, utev, lambda *_: None)
-            if fr.loops or after:
-                after += txt
-            else:
-                before += txt
+            (tail if fr.loops or tail else head).append((fr, _gen_text(fr, i_, env, utev, lambda *_: None)))
+        before, after = _compose(head), _compose(tail)
         found = none_re.search(before)
         n_with += bool(found)
         if bool(found) != env[none_atoms[0]] or none_re.search(after):
@@ -593,6 +605,10 @@ def run(rep: Report, ctx: Any) -> str:
     vl = proto.methods.get("validate_location")
     rep.require(vl, "validate_location")
     # an allowed location PATH with required=False: every path returns an error; with required=True some path accepts
+    # (the methods it calls on `self` written out in place: whether the requiredness is read where it is tested or handed to
+    # another method of the class as an argument is the same decision)
+    vl_flat = _SelfInliner(ix, vl, depth=2).run()
+
     def vl_paths(required: bool) -> list[SimPath]:
         def leaf(e: ast.expr, st: dict, sim: PathSim) -> "bool | None":
             if isinstance(e, ast.Compare) and len(e.ops) == 1:
@@ -602,7 +618,7 @@ def run(rep: Report, ctx: Any) -> str:
                     return isinstance(e.ops[0], (ast.Eq, ast.Is))
             return required if norm(e) == "self.required" else None
 
-        return PathSim(vl.node, leaf).paths()
+        return PathSim(vl_flat, leaf).paths()
 
     def rejects(p: SimPath) -> bool:
         return isinstance(p.end, ast.Raise) or (isinstance(p.end, ast.Return) and constructs_error(p.end.value))
@@ -681,12 +697,36 @@ def _merge_keeps_required(rep: Report, ix: Any) -> None:
     found = [g for g in ix.all_functions if g.module is f.module and g.name in combiners]
     rep.require(found or bad, "the function merge_properties hands both declarations to")
     for g in found:
-        ors = [kw.value for c in ast.walk(g.node) if isinstance(c, ast.Call) for kw in c.keywords if kw.arg == "required"]
+        # the combining function together with the private functions of its module that it calls or hands on as a function value
+        # (the step function of a fold, the callback of map / partial, ... is run by the function that receives it)
+        ors = [kw.value for h in _private_closure(ix, g) for c in ast.walk(h.node) if isinstance(c, ast.Call)
+               for kw in c.keywords if kw.arg == "required"]
         ok = any(isinstance(v, ast.BoolOp) and isinstance(v.op, ast.Or) and
                  len({norm(x.value) for x in v.values if isinstance(x, ast.Attribute) and x.attr == "required"}) >= 2 for v in ors)
         rep.check(ok, "R10.10", f"{short(g)}::required-or", "the function that combines two declarations does not build the result with "
                   "`required=<one>.required or <other>.required`", where(g, g.node), lhs=[norm(v)[:60] for v in ors][:2],
                   rhs="required=a.required or b.required")
+
+
+def _private_closure(ix: Any, f: Any, depth: int = 3) -> list[Any]:
+    """f and the private functions (`_name`) of its module or class that it reaches by name - called, or handed on as a function value
+    (`reduce(_step, xs, x0)`, `map(_one, xs)`, `partial(_one, ...)`: whoever receives the function runs it) - transitively"""
+    out = [f]
+    frontier = [f]
+    for _ in range(depth):
+        nxt: list[Any] = []
+        for g in frontier:
+            names = {n.id for n in ast.walk(g.node) if isinstance(n, ast.Name) and isinstance(n.ctx, ast.Load)} | \
+                    {n.attr for n in ast.walk(g.node) if isinstance(n, ast.Attribute) and isinstance(n.value, ast.Name)
+                     and (n.value.id in ("self", "cls") or (g.cls is not None and n.value.id == g.cls.name))}
+            bound = set(Locals(g.node).defs) | {a.arg for a in g.params}
+            for h in ix.all_functions:
+                if h.name in names and h.name not in bound and h.name.startswith("_") and not h.name.startswith("__") \
+                        and h.module is g.module and h.parent is None and not any(h is x for x in out):
+                    out.append(h)
+                    nxt.append(h)
+        frontier = nxt
+    return out
 
 
 _EMPTY = (ast.List, ast.Tuple, ast.Set, ast.Dict)
@@ -1045,6 +1085,34 @@ class _FlatInliner(_Inliner):
         return super()._structured(flat, res, budget)
 
 
+class _SelfInliner(_FlatInliner):
+    """_FlatInliner, also for the methods a method calls on its own object (`self.m(...)` / `cls.m(...)`, public or private, as the
+    class of the method provides them - its own or an inherited one): what the class's implementation does, whether it is written
+    in one method or delegates to another with the decisive value as an argument.  (An override in a subclass is another
+    implementation: it is looked at where the rule looks at the subclass.)"""
+
+    def __init__(self, ix: Any, f: Any, depth: int = 2):
+        super().__init__(ix, f, depth)
+        self.own_methods: dict[str, Any] = {}
+        frontier = [f] if f.cls is not None else []
+        for _ in range(depth):
+            nxt = []
+            for g in frontier:
+                for c in calls_in(g.node):
+                    if isinstance(c.func, ast.Attribute) and isinstance(c.func.value, ast.Name) and c.func.value.id in ("self", "cls"):
+                        m = ix.find_method(f.cls, c.func.attr)
+                        if m is not None and m is not f and m.name not in self.helpers and m.name not in self.own_methods:
+                            self.own_methods[m.name] = m
+                            nxt.append(m)
+            frontier = nxt
+
+    def _helper_of(self, c: ast.Call) -> Any:
+        h = super()._helper_of(c)
+        if h is None and isinstance(c.func, ast.Attribute) and isinstance(c.func.value, ast.Name) and c.func.value.id in ("self", "cls"):
+            h = self.own_methods.get(c.func.attr)
+        return h
+
+
 def _adds_null(p: SimPath) -> bool:
     return any(any(isinstance(n, ast.Attribute) and n.attr == "NULL" for n in walk_own(s)) for s in p.stmts())
 
@@ -1211,6 +1279,7 @@ def _frag(kind: str, text: str, line: int, guards: tuple, gnodes: tuple, loops: 
     fr.expr = expr          # type: ignore[attr-defined]
     fr.target = target      # type: ignore[attr-defined]
     fr.insts = insts        # type: ignore[attr-defined]
+    fr.wraps = ()           # type: ignore[attr-defined]   # see _Walk.wrapped
     return fr
 
 
@@ -1310,6 +1379,7 @@ class _Walk:
         self.tests = tests
         self.sets = sets
         self._imports: dict[str, tuple[dict, dict]] = {}
+        self._defs: dict[str, list[nodes.Node]] = {}   # `set` variable -> the values it was given on the way, in the walker's terms
 
     # -- which macro does a call mean -----------------------------------------------------------------------------------------
     def imports(self, ti: Any) -> tuple[dict, dict]:
@@ -1377,6 +1447,29 @@ class _Walk:
             return body, ti, b0
         return None
 
+    @staticmethod
+    def wrapped(c: nodes.Node, frs: Iterator[tplq.Frag]) -> Iterator[tplq.Frag]:
+        """the fragments of a macro body written out in place of `{{ m(...) | indent(8) }}`: the filters apply to the text the
+        whole call produces, so each fragment remembers (outermost first) the calls it was written out for and their text filters
+        (`_compose` applies them when the pieces are put together); filters that do not change the layout of the text are not kept"""
+        chain: list[tuple] = []
+        while isinstance(c, nodes.Filter) and c.node is not None:
+            if c.name == "trim" and not c.args and not c.kwargs:
+                chain.append(("trim",))
+            elif c.name == "indent" and c.dyn_args is None and c.dyn_kwargs is None and \
+                    all(isinstance(a, nodes.Const) for a in [*c.args, *[k.value for k in c.kwargs]]):
+                opts = dict(zip(("width", "first", "blank"), [a.value for a in c.args]))
+                opts.update({k.key: k.value.value for k in c.kwargs})
+                chain.append(("indent", opts.get("width", 4), bool(opts.get("first", False)), bool(opts.get("blank", False))))
+            c = c.node
+        if not chain:
+            yield from frs
+            return
+        group = (object(), tuple(reversed(chain)))   # innermost filter first
+        for fr in frs:
+            fr.wraps = (group,) + fr.wraps   # type: ignore[attr-defined]
+            yield fr
+
     # -- the walk -----------------------------------------------------------------------------------------------------------------
     def cond(self, t: nodes.Node, b: dict[str, Any]) -> nodes.Node:
         t2 = _clone(t, b) if b else t
@@ -1394,13 +1487,14 @@ class _Walk:
                         continue
                     cb = self.caller_body(c, b)
                     if cb is not None and len(stack) < 6:
-                        yield from self.walk(cb[0], cb[1], guards, gnodes, loops, insts, cb[2], stack + (("caller", str(id(cb[0]))),))
+                        yield from self.wrapped(c, self.walk(cb[0], cb[1], guards, gnodes, loops, insts, cb[2],
+                                                             stack + (("caller", str(id(cb[0]))),)))
                         continue
                     mc = self.macro_of(c, ti, b)
                     if mc is not None and (mc[2].name, mc[0].name) not in stack and len(stack) < 4:
                         macro, call, t2 = mc
-                        yield from self.walk(macro.body, t2, guards, gnodes, loops, insts, self.bind_call(macro, call, b),
-                                             stack + ((t2.name, macro.name),))
+                        yield from self.wrapped(c, self.walk(macro.body, t2, guards, gnodes, loops, insts, self.bind_call(macro, call, b),
+                                                             stack + ((t2.name, macro.name),)))
                         continue
                     c2 = _clone(c, b) if b else c
                     yield _frag("expr", expr_text(c2), c.lineno, guards, gnodes, loops, c, expr=c2, insts=insts)
@@ -1421,8 +1515,10 @@ class _Walk:
             elif isinstance(n, nodes.For):
                 yield from self.loop(n, ti, guards, gnodes, loops, insts, b, stack)
             elif isinstance(n, nodes.Assign):
+                v2 = _clone(n.node, b) if b else n.node
+                if isinstance(n.target, nodes.Name):
+                    self._defs.setdefault(n.target.name, []).append(v2)
                 if self.sets:
-                    v2 = _clone(n.node, b) if b else n.node
                     yield _frag("set", expr_text(v2), n.lineno, guards, gnodes, loops, n, expr=v2,
                                 target=n.target.name if isinstance(n.target, nodes.Name) else None, insts=insts)
             elif isinstance(n, nodes.Include):
@@ -1456,6 +1552,11 @@ class _Walk:
              stack: tuple) -> Iterator[tplq.Frag]:
         it_node = _clone(n.iter, b) if b else n.iter
         targets = [n.target.name] if isinstance(n.target, nodes.Name) else [t.name for t in n.target.find_all(nodes.Name)]
+        # a `set` variable that holds a written-out table (its only definition in the template) is that table
+        if isinstance(it_node, nodes.Name) and len(self._defs.get(it_node.name, ())) == 1 and \
+                isinstance(self._defs[it_node.name][0], (nodes.Tuple, nodes.List)) and \
+                sum(1 for a in ti.tree.find_all((nodes.Assign, nodes.AssignBlock)) if isinstance(a.target, nodes.Name) and a.target.name == it_node.name) == 1:
+            it_node = self._defs[it_node.name][0]
         # a literal sequence: one round per element, in order
         if isinstance(it_node, (nodes.Tuple, nodes.List)) and len(it_node.items) <= UNROLL:
             rounds: "list[dict[str, Any]] | None" = []
@@ -1528,6 +1629,48 @@ def _peel_selection(it: nodes.Node) -> "tuple[nodes.Node, list[tuple[str, str | 
 DEST, SOURCE, UNKNOWN = "DEST_", "SOURCE_", "HOLE_"   # placeholders in the generated code: destination local, popped source, anything else
 
 
+def _filtered(text: str, flt: tuple) -> str:
+    """jinja's `trim` / `indent(width, first, blank)` applied to a text"""
+    if flt[0] == "trim":
+        return text.strip()
+    _, width, first, blank = flt
+    pad = width if isinstance(width, str) else " " * int(width)
+    lines = (text + "\n").splitlines()
+    if blank:
+        out = ("\n" + pad).join(lines)
+    else:
+        out = lines.pop(0) if lines else ""
+        if lines:
+            out += "\n" + "\n".join(pad + l if l else l for l in lines)
+    return pad + out if first else out
+
+
+def _compose(pieces: "list[tuple[tplq.Frag, str]]") -> str:
+    """the text that the pieces (fragment, its text) make up in this order: where a macro call was written out in place under text
+    filters (`{{ m(...) | indent(8) }}`, _Walk.wrapped), the filters are applied to what the pieces of that call make up together -
+    the same text whether the lines stand where they are used or in a macro that is called there"""
+    def level(items: list, d: int) -> str:
+        out = ""
+        i = 0
+        while i < len(items):
+            ws = getattr(items[i][0], "wraps", ())
+            if len(ws) <= d:
+                out += items[i][1]
+                i += 1
+                continue
+            j = i
+            while j < len(items) and len(getattr(items[j][0], "wraps", ())) > d and items[j][0].wraps[d][0] is ws[d][0]:
+                j += 1
+            sub = level(items[i:j], d + 1)
+            for flt in ws[d][1]:
+                sub = _filtered(sub, flt)
+            out += sub
+            i = j
+        return out
+
+    return level(list(pieces), 0)
+
+
 def _gen_text(fr: tplq.Frag, at: int, env: dict[str, bool], tev: "_TplEval", role: Any) -> str:
     """the generated code a fragment contributes under env: template text as it stands; an output expression as the placeholder of
     its role, else the text it is put together from (string constants, `~` / `+`, the selected arm of a conditional expression, a
@@ -1584,7 +1727,7 @@ def generated_variants(m: Any, ti: Any, jx: Any, role: Any, fixed: "dict[str, bo
     out = []
     for env0 in tplq.assignments(free):
         env = {**env0, **fixed}
-        out.append((env, "".join(_gen_text(fr, i, env, tev, role) for i, fr in frs if fr.kind != "set" and _guard_holds(fr, env))))
+        out.append((env, _compose([(fr, _gen_text(fr, i, env, tev, role)) for i, fr in frs if fr.kind != "set" and _guard_holds(fr, env)])))
     return out
 
 
@@ -1596,8 +1739,11 @@ class _GenRun:
 
     LIMIT = 64
 
-    def __init__(self, unset_falsy: bool):
+    def __init__(self, unset_falsy: bool, present: bool = False):
         self.unset_falsy = unset_falsy
+        # present=True: the run on the other path - SOURCE is a value that was there (anything but the sentinel: possibly null,
+        # empty, zero), "SRC" stands for it and the sentinel read from `UNSET` is a value of its own, "SENT"
+        self.present = present
         self.funcs: dict[str, ast.FunctionDef] = {}
 
     def result(self, tree: ast.Module, var: str) -> set[str]:
@@ -1674,7 +1820,7 @@ class _GenRun:
     def value(self, e: ast.expr, env: dict, depth: int) -> set[str]:
         if isinstance(e, ast.Name):
             if e.id in (SOURCE, "UNSET"):
-                return {"SRC"}
+                return {"SENT"} if self.present and e.id == "UNSET" else {"SRC"}
             if e.id == UNKNOWN:
                 # a template expression in value position that is not the source (a default, a constant of the document, ...)
                 return {"FRESH:<template expression>"}
@@ -1715,6 +1861,14 @@ class _GenRun:
             return out
         if isinstance(e, ast.BoolOp):
             vals = [self.value(v, env, depth) for v in e.values]
+            if self.present:
+                # whether the value that was there is truthy is not known; the sentinel is falsy
+                falsy = {"SENT"} if self.unset_falsy else set()
+                if isinstance(e.op, ast.Or):
+                    return set(vals[-1]).union(*[v - falsy for v in vals[:-1]])
+                if vals[0] and vals[0] <= falsy:
+                    return set(vals[0])
+                return set().union(*vals)
             if isinstance(e.op, ast.Or):
                 # `a or b` is b when a is falsy - the sentinel is
                 out = set(vals[-1])
@@ -1729,7 +1883,11 @@ class _GenRun:
     def test(self, e: ast.expr, env: dict, depth: int) -> "bool | None":
         def is_sentinel(x: ast.expr) -> "bool | None":
             vs = self.value(x, env, depth)
+            if self.present:
+                return True if vs == {"SENT"} else False if vs and all(v == "SRC" or v.startswith("FRESH:") for v in vs) else None
             return True if vs == {"SRC"} else False if vs and all(v.startswith("FRESH:") for v in vs) else None
+
+        absent = {"SENT"} if self.present else {"SRC"}   # what the sentinel reads as in this run
 
         if isinstance(e, ast.UnaryOp) and isinstance(e.op, ast.Not):
             t_ = self.test(e.operand, env, depth)
@@ -1743,7 +1901,7 @@ class _GenRun:
             kinds = [norm(x) for x in (e.args[1].elts if isinstance(e.args[1], ast.Tuple) else [e.args[1]])]
             if kinds == ["Unset"]:
                 return is_sentinel(e.args[0])
-            if "Unset" not in kinds and self.value(e.args[0], env, depth) == {"SRC"}:
+            if "Unset" not in kinds and self.value(e.args[0], env, depth) == absent:
                 return False
             return None
         if isinstance(e, ast.Compare) and len(e.ops) == 1 and isinstance(e.ops[0], (ast.Is, ast.IsNot)):
@@ -1753,10 +1911,10 @@ class _GenRun:
                 if norm(b) == "UNSET":
                     t_ = is_sentinel(a)
                     return None if t_ is None else (t_ == pos)
-                if norm(b) == "None" and self.value(a, env, depth) == {"SRC"}:
+                if norm(b) == "None" and self.value(a, env, depth) == absent:
                     return not pos
             return None
-        if isinstance(e, (ast.Name, ast.NamedExpr)) and self.unset_falsy and self.value(e, env, depth) == {"SRC"}:
+        if isinstance(e, (ast.Name, ast.NamedExpr)) and self.unset_falsy and self.value(e, env, depth) == absent:
             return False
         return None
 
@@ -1776,6 +1934,7 @@ class _Forwarding:
         self._params: dict[str, list[str]] = {}
         self._locals: dict[str, Locals] = {}
         self._src: dict[str, set[str]] = {}
+        self._decl_types: "set[str] | None" = None
         # parameters whose `.required` a function forwards, directly; then through one and two levels of delegation
         self.decl_params: dict[str, set[str]] = {g.qual: set() for g in ix.all_functions}
         for _ in range(3):
@@ -1842,6 +2001,52 @@ class _Forwarding:
                 if pn in self.decl_params.get(g.qual, ()) and isinstance(a, ast.Name) and a.id in ps_f and a.id not in ("self", "cls"):
                     out.add(f"{a.id}.required")
         return out
+
+    def _declaration_types(self) -> set[str]:
+        """names under which a value that has a requiredness can be annotated: the classes of the package with a field `required`,
+        their subclasses and bases, the module-level aliases made of them, and the types that admit anything"""
+        if self._decl_types is None:
+            ix = self.ix
+            names = {"Any", "object"}
+            for k in ix.classes.values():
+                if "required" in ix.all_fields(k):
+                    names |= {b.name for b in ix.mro(k)}
+            for _ in range(2):
+                for m in ix.modules.values():
+                    for nm, v in m.variables.items():
+                        if v is not None and self._ann_names(v) & names:
+                            names.add(nm)
+            self._decl_types = names
+        return self._decl_types
+
+    @staticmethod
+    def _ann_names(a: "ast.AST | None") -> set[str]:
+        out: set[str] = set()
+        for n in ast.walk(a) if a is not None else ():
+            if isinstance(n, ast.Name):
+                out.add(n.id)
+            elif isinstance(n, ast.Attribute):
+                out.add(n.attr)
+            elif isinstance(n, ast.Constant) and isinstance(n.value, str):
+                out |= set(re.findall(r"[A-Za-z_]\w*", n.value))
+        return out
+
+    def holds_no_declaration(self, f: Any, v: "ast.AST | None") -> bool:
+        """v builds a record that by its declared types cannot carry a requiredness: an instance of a class of the package that has
+        no `required` itself, every field of which is annotated, none with a type that has one (or with Any / object).  Such a
+        result - the findings of an analysis phase, say - is no declaration; what is made of it is the receiver's business"""
+        if not isinstance(v, ast.Call):
+            return False
+        r = self.ix.resolve(f.module, call_name(v))
+        if not r or r[0] != "class":
+            return False
+        k = r[1]
+        fields = self.ix.all_fields(k)
+        decl = self._declaration_types()
+        if not fields or k.name in decl or len(v.args) + len(v.keywords) > len(fields) or any(kw.arg is None for kw in v.keywords) \
+                or any(isinstance(a, ast.Starred) for a in v.args):
+            return False
+        return all(a is not None and not (self._ann_names(a) & decl) for a in fields.values())
 
     def in_expr(self, f: Any, e: ast.AST) -> set[str]:
         out: set[str] = set()
